@@ -219,7 +219,7 @@ func check(c Case) (o ev.Outcome) {
 		return
 	}
 	o.Class("cli")
-	dir, err := os.MkdirTemp("", "verif-c05-")
+	dir, err := ev.MkdirTemp("verif-c05-")
 	if err != nil {
 		panic(err)
 	}
